@@ -102,6 +102,15 @@ structure DSt where
   up : Nat → Bool := fun _ => false
   knownFull : List Nat := []
   staleEc : List (Nat × Nat) := []
+  /-- what the servers hold by their own messages (`toldNext`) -/
+  told : List (Nat × Nat) := []
+  /-- replicas registered at/over the limit ever since they registered (`bornOverNext`) -/
+  bornOver : List (Nat × Nat) := []
+  /-- offered volumes with a `bornOver` replica, with the class fixed when the violation appeared (`overClsNext`) -/
+  overCls : List (Nat × Bool) := []
+  /-- registered (server, vid) pairs and offered vids of the previous observation -/
+  prevHolders : List (Nat × Nat) := []
+  prevWr : List Nat := []
   prevBad : List (String × String) := []
 
 /-- bookkeeping of what the servers declared (inputs only) -/
@@ -125,6 +134,11 @@ def covOf (op : Op) (st st' : St) : List String :=
   | .full s vs =>
     ["COV full"] ++ (if vs.any (fun v => (volOf st s v.id).any fun o => o.ro != v.ro) then ["COV full.changed-ro"] else [])
       ++ (if (volumesOf st s).any (fun v => !(vs.any fun a => a.id == v.id)) then ["COV full.deleted"] else [])
+      -- a read-only flag is cleared on a volume whose oversized registration the layout remembers
+      ++ (if vs.any (fun v => (volOf st s v.id).any (fun o => o.ro && !v.ro) && !(st'.ov v.key v.id).isEmpty)
+          then ["COV full.ro-cleared-oversized-remembered"] else [])
+      -- a full heartbeat without volumes from a server that has volumes registered
+      ++ (if st.conn s && vs.isEmpty && !(volumesOf st s).isEmpty then ["COV full.empty-with-registered"] else [])
   | .inc s ns ds =>
     ["COV inc"] ++ (if ds.any (fun v => (st.vols s v.key.disk v.id).isNone) then ["COV inc.delete-unregistered"] else [])
       ++ (if ds.any (fun v => (st.vols s v.key.disk v.id).any fun o => o.remote) then ["COV inc.delete-remote"] else [])
@@ -153,6 +167,11 @@ def stepWith (judge : Obs → DSt → List (String × String))
       | .refresh => { d1 with knownFull := (List.range (st'.nVid + 1)).filter fun vid => obs.full st'.limit vid }
       | _ => d1
     let d2 := { d2 with staleEc := staleEcNext obs st'.nVid d2.staleEc (match op with | .disc s => if d.up s then some s else none | _ => none) }
+    -- what the servers said (inputs), and which replicas the master was told to be oversized at registration
+    let bornOver := bornOverNext obs st'.limit d.prevHolders d.bornOver
+    let d2 := { d2 with told := toldNext d.told d.up op, bornOver := bornOver,
+                        overCls := overClsNext (offeredBornOver obs bornOver) d.prevWr d.overCls,
+                        prevHolders := obs.holderPairs, prevWr := obs.layouts.flatMap (·.wr) }
     let bad := if ln.outs == ["panic"] then [("panic", "")] else judge obs d2
     -- a fact is identified by its kind and place (the size of a counter error is not part of its identity)
     let ident := fun (b : String × String) => (b.1, (b.2.splitOn ",observed-minus-recount").headD "")
